@@ -6,7 +6,8 @@
    and from there: per-query locality, completeness of errors, independence of the query order, sub-runs. *)
 From Coq Require Import ZArith QArith List Bool Lia Sorting.Permutation.
 Import ListNotations.
-Require Import Py Pairing Core Multi Coordinator PyProofs SrcErase LocalProofs1 LocalProofs2 LocalProofs3.
+Require Import Py Pairing Core Multi Coordinator PyProofs SrcErase LocalProofs1 LocalProofs2 LocalProofs3 FreshProofs.
+Require ModesProofs4.
 Open Scope Z_scope.
 
 Definition isok {A} (x : res A) : bool := match x with Ok _ => true | Err => false end.
@@ -213,10 +214,12 @@ Definition erun (ql : list omap) : res outputs := rmap er_out (program_run P see
 
 Lemma erun_phases ql : erun ql = do pr <- phasesQ ql ql; post m md (fst pr) (snd pr).
 Proof. unfold erun, phasesQ. rewrite program_run_post, <- (ex_spec ql 1). unfold ex at 1.
-  destruct (execute P seeds refs ql 1) as [[rows1 it1]|]; cbn [bind rmap fst snd]; [|reflexivity].
+  destruct (execute P seeds refs ql 1) as [[rows1 it1]|] eqn:E1; cbn [bind rmap fst snd]; [|reflexivity].
   rewrite all_fragments_er. destruct (all_fragments rows1 ql) as [fr|]; cbn [bind rmap]; [|reflexivity].
   rewrite <- (ex_spec fr it1). unfold ex. destruct (execute P seeds refs fr it1) as [[rows2 it2]|]; cbn [bind rmap fst snd]; [|reflexivity].
-  rewrite <- er_post. f_equal. rewrite !map_map. apply map_ext. intros w. reflexivity. Qed.
+  rewrite <- er_post.
+  2:{ split; [exact (ModesProofs4.execute_rest _ _ _ _ _ _ E1)|]. apply Forall_forall. intros w Hw. apply in_map_iff in Hw. destruct Hw as (y & <- & _). reflexivity. }
+  f_equal. rewrite !map_map. apply map_ext. intros w. reflexivity. Qed.
 
 (* the decomposition: all queries are run independently, then post sees the concatenated rows *)
 Theorem erun_decomp ql : NoDup (map mid ql) ->
